@@ -60,9 +60,15 @@ Fixpoint vlatest (f : nat -> option val) (j : nat) : obs :=
   | S j' => match f j' with Some v => Some (j', v) | None => vlatest f j' end
   end.
 
+Fixpoint ws_find (l : loc) (ws : list (loc * val)) : option val :=
+  match ws with
+  | [] => None
+  | (l', v) :: ws' => if Nat.eqb l l' then Some v else ws_find l ws'
+  end.
+
 Definition vwrite (s : vstore) (j : nat) (ws : list (loc * val)) : vstore :=
   fun l k => if Nat.eqb k j then
-               match find (fun p => Nat.eqb (fst p) l) ws with Some p => Some (snd p) | None => s l k end
+               match ws_find l ws with Some v => Some v | None => s l k end
              else s l k.
 
 (* the committed (backing) state after the in-order writes recorded in [s] for transactions < j;
